@@ -98,6 +98,26 @@ def headerFields : List (List Nat × List (List Nat)) → List (List Nat × List
 
 def isExtendedConnect (w : WReq) : Bool := w.method = mConnect && w.proto ≠ [] && w.proto ≠ vHTTP11
 
+/-- the request needs :path and :scheme (everything but a plain CONNECT) -/
+def needPath (w : WReq) : Bool := w.method ≠ mConnect || isExtendedConnect w
+
+/-- the pseudo-header fields, in the order enumerateHeaders emits them -/
+def pseudoPart (w : WReq) (host path : List Nat) : List (List Nat × List Nat) :=
+  [(nAuthority, host), (nMethod, w.method)]
+    ++ (if needPath w then [(nPath, path), (nScheme, w.scheme)] else [])
+    ++ (if isExtendedConnect w then [(nProtocol, w.proto)] else [])
+
+/-- the value of the `trailer` field: `strings.Join(keys with ValidTrailerHeader, ", ")` -/
+def trailersValue (w : WReq) : List Nat := joinWith [44, 32] (w.trailerKeys.filter validTrailerHeader)
+
+/-- the regular fields, in the order enumerateHeaders emits them -/
+def regularPart (ua : List Nat) (w : WReq) : List (List Nat × List Nat) :=
+  (if trailersValue w ≠ [] then [(nTrailer, trailersValue w)] else [])
+    ++ (headerFields w.headers).1
+    ++ (if shouldSendCL w.method w.contentLength then [(nContentLength, fmtNat w.contentLength.toNat)] else [])
+    ++ (if w.gzip then [(nAcceptEncoding, vGzip)] else [])
+    ++ (if !(headerFields w.headers).2 then [(nUserAgent, ua)] else [])
+
 /-- `encodeHeaders`: the list of fields handed to the QPACK encoder, or the writer's own rejection -/
 def encodeHeaders (ua : List Nat) (w : WReq) : Except WErr (List (List Nat × List Nat)) :=
   match w.puny with
@@ -105,25 +125,13 @@ def encodeHeaders (ua : List Nat) (w : WReq) : Except WErr (List (List Nat × Li
   | some host =>
     if !validHost host then .error .host
     else
-      let isExt := isExtendedConnect w
-      let needPath : Bool := w.method ≠ mConnect || isExt
       let p1 := w.reqURI
       let p2 := trimPrefix (w.scheme ++ [58, 47, 47] ++ host) p1
-      if needPath && !validPseudoPath p1 && !validPseudoPath p2 then .error .path
+      if needPath w && !validPseudoPath p1 && !validPseudoPath p2 then .error .path
       else
         let path := if validPseudoPath p1 then p1 else p2
         if w.headers.any (fun kv => !validFieldName kv.1 || kv.2.any (fun v => !validFieldValue v)) then .error .header
-        else
-          let trailers := joinWith [44, 32] (w.trailerKeys.filter validTrailerHeader)
-          let (hf, didUA) := headerFields w.headers
-          .ok ([(nAuthority, host), (nMethod, w.method)]
-            ++ (if needPath then [(nPath, path), (nScheme, w.scheme)] else [])
-            ++ (if isExt then [(nProtocol, w.proto)] else [])
-            ++ (if trailers ≠ [] then [(nTrailer, trailers)] else [])
-            ++ hf
-            ++ (if shouldSendCL w.method w.contentLength then [(nContentLength, fmtNat w.contentLength.toNat)] else [])
-            ++ (if w.gzip then [(nAcceptEncoding, vGzip)] else [])
-            ++ (if !didUA then [(nUserAgent, ua)] else []))
+        else .ok (pseudoPart w host path ++ regularPart ua w)
 
 /-- `writeTrailers`: `none` = nothing written -/
 def writeTrailers (t : List (List Nat × List (List Nat))) : Option (List (List Nat × List Nat)) :=
